@@ -1080,6 +1080,7 @@ def oracle(smi, ops):
     origin = {0: None}           # object -> (source object, how) for copies
     enter_state = {}
     txn_touched, txn_stereo = {}, {}
+    stereo_unsettled = set()
     attr_in_txn, edit_in_txn = {}, {}
     for i, op in enumerate(ops):
         name, o = op[0], op[1]
@@ -1153,11 +1154,20 @@ def oracle(smi, ops):
             return (f'C13/asymmetric-adjacency/{name}', f'after op {i} {op} the adjacency is not symmetric')
         if exc is None and name != 'exitExc':
             ref_state = txn_stereo.pop(o, None) if name == 'exitOk' else st_before
-            if ref_state is not None and touched is not None and name != 'remap':
+            # only for stereo-settled objects: hydrogens rule-based (not copied by substructure(recalculate_hydrogens=False),
+            # not after bulk edits) and no order-8 bond added since the last fix_stereo (add_bond(.., 8) skips it by design)
+            settled = o not in flags.h_copied and o not in stereo_unsettled
+            if name == 'addBond' and op[4] == 8:
+                stereo_unsettled.add(o)
+            elif name in ('addBond', 'delBond', 'delAtom', 'exitOk', 'fixStereo') and o not in enter_state:
+                stereo_unsettled.discard(o)
+            if created is not None and o in stereo_unsettled:
+                stereo_unsettled.add(created)
+            if ref_state is not None and touched is not None and name != 'remap' and settled:
                 d = stereo_lost(ref_state, objs[o], touched)
                 if d:
                     return (f'C13/stereo-label-lost/{name}', f'op {i} {op} does not touch that part of the molecule, but {d}')
-            if created is not None and name == 'copy' and st_before is not None:
+            if created is not None and name == 'copy' and st_before is not None and settled:
                 d = stereo_lost(st_before, objs[created], set())
                 if d:
                     return ('C13/stereo-label-lost/copy', f'op {i} {op}: in the copy {d}')
